@@ -811,7 +811,7 @@ package core
 
 // A rejected add leaves the term index as it was (so a fact that stays stored stays findable).
 //@ funcval (*IndexedState).add.addHook
-//@   modifies allbut(F:core.IndexedState.|F:core.TermIndex.|MD:string:map[string]struct{}|MV:string:map[string]struct{}|ML:string:map[string]struct{}|MD:string:struct{}|MV:string:struct{}|ML:string:struct{}|LK:)
+//@   modifies allbut(F:core.Context.|F:core.IndexedState.|F:core.TermIndex.|MD:string:map[string]struct{}|MV:string:map[string]struct{}|ML:string:map[string]struct{}|MD:string:struct{}|MV:string:struct{}|ML:string:struct{}|LK:)
 //@ func (*IndexedState).add
 //@   ensures[C02.ix_rejected_add_keeps_index] result1 != nil ==> forall(t, string, forall(j, string, old(hasEntry(s.FactIndex, t, j)) ==> hasEntry(s.FactIndex, t, j)))
 //@ ghost addRejected bool gate
@@ -832,7 +832,7 @@ package core
 //@   ghost-ensures piAddedId == id
 //@   also-modifies piAddedId
 //@ func (*PatternIndex).RemPatternMap
-//@   ghost-ensures piRemovedId == id && piRemovedPat == pattern
+//@   ghost-ensures piRemovedId == id && piRemovedPat == m
 //@   also-modifies piRemovedId, piRemovedPat
 //@ func (*IndexedState).unindexRule
 //@   ghost-ensures unindexedId == id && unindexedRule == rule
